@@ -164,21 +164,6 @@ fn walk(ont: &Ontology, d: &mut Vec<String>) {
     }
 }
 
-fn same(a: &Expected, b: &Expected) -> Vec<String> {
-    let mut d = vec![];
-    if a.terms != b.terms {
-        d.push(format!("terms differ: {:?} vs {:?}", a.terms, b.terms));
-    }
-    for k in 0..3 {
-        let x: Vec<(u32, String, Vec<u32>)> = a.recs[k].iter().map(|(i, r)| (*i, r.name.clone(), r.hpos.iter().copied().collect())).collect();
-        let y: Vec<(u32, String, Vec<u32>)> = b.recs[k].iter().map(|(i, r)| (*i, r.name.clone(), r.hpos.iter().copied().collect())).collect();
-        if x != y {
-            d.push(format!("{} records differ: {:?} vs {:?}", KINDS[k].name(), x, y));
-        }
-    }
-    d
-}
-
 pub fn check_line(st: &mut Stats, line: &Value, seed: u64, conc_filter: Option<&str>) -> Vec<(String, Vec<String>)> {
     let ids = u32_list(&line["ids"]);
     let calls = arr(&line["calls"]);
@@ -202,7 +187,7 @@ pub fn check_line(st: &mut Stats, line: &Value, seed: u64, conc_filter: Option<&
             // "the result equals the ontology built from the successful calls alone"
             let mut ignore = vec![];
             let ont2 = drive(&calls, &conc, true, &mut ignore);
-            for x in same(&observe(&ont), &observe(&ont2)) {
+            for x in observe_diff(&observe(&ont), &observe(&ont2)) {
                 dd.push(format!("differs from the ontology built from the successful calls alone: {x}"));
             }
             dd
